@@ -30,7 +30,7 @@ import vplib
 
 FAIL_RETS = ("m1", "null", "huge")
 
-# Path used for the "device full" rows: a symbolic link in the scratch directory that points to /dev/full
+# Paths used for the "device full" rows (per family): symbolic links in the scratch directory that point to /dev/full
 # (never /dev/full itself: the check runs as root, and a library change that unlinks the target of a failed save
 # - seeded change C11-2 does - would remove the device node for every later run).  None = rows skipped, see
 # probe_devfull.
@@ -62,14 +62,19 @@ def probe_devfull(ctx):
     except OSError as e:
         reason = "/dev/full cannot be used: %s" % e
     if reason is None:
-        link = os.path.join(ctx.tmp, "devfull")
+        # one link per family: a library change that unlinks the target of a failed save removes the link of the
+        # function it is in, not the one the other family's rows use
         try:
-            if os.path.lexists(link):
-                os.unlink(link)
-            os.symlink("/dev/full", link)
-            DEVFULL = link
+            links = {}
+            for fam in ("data", "cal"):
+                link = os.path.join(ctx.tmp, "devfull_" + fam)
+                if os.path.lexists(link):
+                    os.unlink(link)
+                os.symlink("/dev/full", link)
+                links[fam] = link
+            DEVFULL = links
         except OSError as e:
-            reason = "cannot create the symbolic link to /dev/full: %s" % e
+            reason = "cannot create the symbolic links to /dev/full: %s" % e
     if reason is not None:
         SKIPPED.append(("catalogue rows save [device-full] (vnadata_save, vnacal_save)", reason))
         ctx.notes.append("catalogue rows save [device-full] skipped: " + reason)
@@ -252,7 +257,7 @@ def judge(case, r):
 
 
 # ----------------------------------------------------------------------------- vnadata family
-DATA_SHAPES = [(0, 0, 0), (0, 2, 3), (0, 3, 1), (1, 1, 1), (1, 2, 2), (1, 3, 3), (4, 2, 2), (5, 3, 3), (2, 2, 2),
+DATA_SHAPES = [(0, 0, 0), (0, 0, 3), (0, 2, 0), (0, 2, 3), (0, 3, 1), (1, 1, 1), (1, 2, 2), (1, 3, 3), (4, 2, 2), (5, 3, 3), (2, 2, 2),
                (6, 2, 2), (8, 2, 2), (10, 1, 1), (10, 1, 3)]
 MATRIX2 = (2, 3, 6, 7, 8, 9)
 SQUARE = (1, 4, 5)
@@ -437,7 +442,7 @@ def file_cases(s, rng):
         out.append(Case("data", s, "load_text", cls + " (by name)", [], fail("m1", errnos, unchanged=None), name + "\n" + text))
     if savable and DEVFULL:
         out.append(Case("data", s, "save", "device-full", [], dict(fail("m1", cb=(1,), unchanged=None), any_system_errno=True),
-                        DEVFULL))
+                        DEVFULL["data"]))
     out.append(Case("data", s, "save", "no-such-directory", [],
                     fail("m1", ("ENOENT",) if savable else ("ENOENT", "EINVAL"), unchanged=None), "/nonexistent-dir/x.npd"))
     if s["type"] == 0:
@@ -596,7 +601,7 @@ def cal_cases_for_state(s, rng):
     out.append(Case("cal", s, "save", "no-such-directory", [], fail("m1", ("ENOENT",)), "/nonexistent-dir/x.vnacal"))
     if s["ncal"] > 0 and s["holes"] != (1 << s["ncal"]) - 1 and DEVFULL:
         out.append(Case("cal", s, "save", "device-full", [], dict(fail("m1", cb=(1,), unchanged=None), any_system_errno=True),
-                        DEVFULL))
+                        DEVFULL["cal"]))
     # apply (error_fn)
     for ci in ci_classes(s):
         if not cal_live(s, ci):
@@ -1381,4 +1386,4 @@ def model_tie2(ctx, runner, drv, broken):
                       "model and library disagree on %s%s %s in state %s: %s" % (c.func, c.args, c.text, c.state, prob),
                       {"row": c.describe(), "model_line": ml, "problem": prob,
                        "note": "model: coq/Err/NewModel.v (prologues as coded); theorems new_fail_classified, "
-                               "new_refused_unchanged, param_fail_classified, convert_refusal_iff_invalid"})
+                               "new_arg_refused_unchanged, rejected_standard_adds_nothing, refused_property_set_unchanged, param_fail_classified, convert_refusal_iff_invalid"})
